@@ -78,7 +78,7 @@ func genScript(rng *rand.Rand, famName string, gap bool) scriptT {
 		switch {
 		case (k < 3 || len(started) == 0) && ncalls < maxCalls:
 			ncalls++
-			st := step{Op: "start", Call: ncalls, Xid: uint32(1 + rng.IntN(pool)), Matcher: []string{"nil", "typed", "typed", "reject", "lib-accept", "lib-other"}[rng.IntN(6)], Tries: 1 + rng.IntN(2)}
+			st := step{Op: "start", Call: ncalls, Xid: uint32(1 + rng.IntN(pool)), Matcher: []string{"nil", "typed", "typed", "reject", "lib-accept", "lib-other", "second"}[rng.IntN(7)], Tries: 1 + rng.IntN(2)}
 			if rng.IntN(3) == 0 {
 				st.Own = 1 + rng.IntN(2)
 			}
@@ -157,6 +157,7 @@ func gapCore(rng *rand.Rand, famName string) scriptT {
 // ---------- sequential model (deterministic scripts, no gap) ----------
 
 type mcall struct {
+	shown          int // "second": how many datagrams of the acceptable type the matcher has been shown
 	id, tries, try int
 	xid            uint32
 	matcher        string
@@ -190,6 +191,11 @@ func (m *model) accepts(c *mcall, typ int) bool {
 		return typ == m.f.AcceptType()
 	case "lib-other":
 		return typ == m.f.OtherType()
+	case "second": // a matcher with a memory: every datagram is shown to it exactly once; it takes the second acceptable one
+		if typ == m.f.AcceptType() {
+			c.shown++
+			return c.shown >= 2
+		}
 	}
 	return false
 }
@@ -324,6 +330,19 @@ func execute(t *testing.T, sc scriptT) (res map[int]*result, tx int, matcherNil 
 					m = func(rp cli.Resp) bool {
 						if rp.Nil {
 							nilCnt.Add(1)
+						}
+						return false
+					}
+				case "second":
+					shown := 0
+					m = func(rp cli.Resp) bool {
+						if rp.Nil {
+							nilCnt.Add(1)
+							return false
+						}
+						if rp.Type == accept {
+							shown++
+							return shown >= 2
 						}
 						return false
 					}
@@ -517,7 +536,7 @@ func judge(r *mon.Rec, t *testing.T, sc scriptT, tag string) {
 				bad("foreign-or-filtered-datagram", "call %d (xid %d) returned datagram %d (xid %d, class %s)", id, cs.Xid, d.Nonce, d.Xid, d.Class)
 				return
 			}
-			if cs.Matcher == "reject" || ((cs.Matcher == "typed" || cs.Matcher == "lib-accept") && d.Type != f.AcceptType()) || (cs.Matcher == "lib-other" && d.Type != f.OtherType()) {
+			if cs.Matcher == "reject" || ((cs.Matcher == "typed" || cs.Matcher == "lib-accept") && d.Type != f.AcceptType()) || (cs.Matcher == "lib-other" && d.Type != f.OtherType()) || (cs.Matcher == "second" && d.Type != f.AcceptType()) {
 				bad("matcher-rejects", "call %d (matcher %s) returned datagram %d of type %d", id, cs.Matcher, d.Nonce, d.Type)
 				return
 			}
